@@ -556,6 +556,10 @@ def tt_cp_apr_pdnr(  # noqa: PLR0912,PLR0913,PLR0915
 
                 else:
                     x_row = X_mat[jj, :]
+                    if not np.any(x_row):
+                        # The row jj of X_mat is empty: same shortcut as for sparse data
+                        M.factor_matrices[n][jj, :] = 0
+                        continue
 
                 # Get current values of the row subproblem variables.
                 m_row = M.factor_matrices[n][jj, :]
@@ -911,6 +915,10 @@ def tt_cp_apr_pqnr(  # noqa: PLR0912,PLR0913,PLR0915
 
                 else:
                     x_row = X_mat[jj, :]
+                    if not np.any(x_row):
+                        # The row jj of X_mat is empty: same shortcut as for sparse data
+                        M.factor_matrices[n][jj, :] = 0
+                        continue
 
                 # Get current values of the row subproblem variables.
                 m_row = M.factor_matrices[n][jj, :]
